@@ -4,6 +4,9 @@ from contracts import isohybrid as H
 
 def units(tier):
     us = [Unit(H.CalcCC), Unit(H.UpdateRba)]
+    # with EFI the padding must also hold the backup GPT (K54)
+    for geom in ([1, 1], [4, 8], [64, 32], [255, 63], [5, 17]):
+        us.append(Unit(H.CalcCC, {'efi': True, 'geom': geom}))
     geoms = [(1, 1), (64, 32), (255, 63), (256, 63), (5, 1), (16, 63)] if tier == 'quick' else [(h, s) for h in range(1, 257) for s in range(1, 64)]
     for efi in (False, True):
         for mac in (False, True):
@@ -16,6 +19,7 @@ def units(tier):
                 us.append(Unit(H.AddIsoHybrid, {'efi': efi, 'mac': mac}))
     for (h, s) in geoms[:6]:
         us.append(Unit(H.RecordPadding, {'heads': h, 'sectors': s}))
+        us.append(Unit(H.RecordPadding, {'heads': h, 'sectors': s, 'efi': True}))
         us.append(Unit(H.UpdateEfi, {'heads': h, 'sectors': s}))
     us.append(Unit(H.UpdateMac))
     us.append(Unit(H.Crc32Step))
@@ -30,6 +34,9 @@ def units(tier):
     from contracts import boot as B
     for v in sorted(B.HYBRIDS):
         us.append(Unit(B.HybridImage, {'variant': v}))
+        if v == 'efi-mac' or (v == 'efi' and tier == 'quick'):
+            continue        # opening an EFI hybrid image inside the verifier takes minutes (efi) or longer (efi-mac): thorough tier / not run
+        us.append(Unit(B.HybridImage, {'variant': v, 'reopen': True}))
     return us
 
 
